@@ -141,6 +141,21 @@ def oracle(ctx, obs, spans, windows):
             if badix and not bool(orc.get("index_panics")):
                 ctx.violation("S5", f"try_as_spdc returns Ok but the refractive index of {badix} is not a finite positive number [{combo}]",
                               {"kind": "nonfinite", "cause": "refractive_index"}, dict(detail, indices=r["indices"]))
+        # the repairs of F7b / F7f / F7g, where the code under test has them (flags read off the source): the outcome is an ERROR
+        fl = ctx.cov.get("repair_flags") or {}
+        if fl.get("validates_crystal") and bool(orc.get("index_panics")) and not k["ls_le_lp"] and r["class"] != "err":
+            ctx.violation("S5", f"a crystal whose expressions cannot be evaluated is not rejected (outcome {r['class']})",
+                          {"kind": "rule_bad_crystal"}, detail)
+        sg0 = o["cfg"]["signal"]
+        if fl.get("external_range") and sg0["theta_deg"] is None and sg0["theta_external_deg"] is not None \
+                and abs(f64_of_hex(sg0["theta_external_deg"])) >= 90.0 and not k["ls_le_lp"] and not bool(orc.get("index_panics")) \
+                and r["class"] != "err":
+            ctx.violation("S5", f"an external signal angle of 90 degrees or more is not rejected (outcome {r['class']})",
+                          {"kind": "rule_external_range"}, detail)
+        if fl.get("total_reflection") and k["theta_auto"] and k["pp"] == "off" and "snell_ext" in orc and orc["snell_ext"] is None \
+                and not bool(orc.get("index_panics")) and not k["ls_le_lp"] and r["class"] != "err":
+            ctx.violation("S5", f"automatic crystal angle for a signal beyond total internal reflection is not rejected (outcome {r['class']})",
+                          {"kind": "rule_total_reflection"}, detail)
         # the four named error rules
         if (k["both"] or k["neither"]) and r["class"] != "err":
             ctx.violation("S5", f"both/neither signal angle given but the outcome is {r['class']}", {"kind": "rule_signal_angles"}, detail)
@@ -390,6 +405,10 @@ def correspondence(ctx, obs, spans, units, label="C17"):
 def run(ctx):
     binp = build_harness(ctx)
     msgs, spans = regen(ctx, ["config_tables", "config_sites", "config_steps"])
+    try:
+        ctx.cov["repair_flags"] = cc.repair_flags()     # also exported to the harness (CFG_REPAIR_FLAGS)
+    except OSError:
+        ctx.cov["repair_flags"] = {}
     ctx.cov["translated_spans"] = {k: v for k, v in spans.items() if k.startswith(("pm_type", "polarization", "math::sigfigs", "config::", "site::"))}
     for m in msgs:
         ctx.proof_failures.append(("Gen/Config*.v", "translator", m))
